@@ -335,13 +335,60 @@ def only_text_columns_differ(x, y, typ='Text'):
   return found
 
 
+def strip_downstream(x, y):
+  """Columns whose cells differ only because their formula uses (by name) a column whose text differs by the order
+  of a set display are made equal in copies of x and y, so that the classification looks at the root columns only
+  (e.g. RANK(rec, order_by="A") where A holds the text of a set).  Unchanged if that is not the situation."""
+  import re
+  ta, tb = x.get('tables', {}), y.get('tables', {})
+  meta_t, meta_c = ta.get('_grist_Tables'), ta.get('_grist_Tables_column')
+  if not meta_t or not meta_c:
+    return x, y
+  tname = dict(zip(meta_t['ids'], meta_t['cols']['tableId']))
+  formula = {(tname.get(p), c): (f or '') for p, c, f in zip(meta_c['cols']['parentId'], meta_c['cols']['colId'],
+                                                            meta_c['cols']['formula'])}
+  base, others = set(), set()
+  for t in ta:
+    if t not in tb or ta[t]['ids'] != tb[t]['ids']:
+      return x, y
+    for c, vals in ta[t]['cols'].items():
+      ov = tb[t]['cols'].get(c)
+      if vals != ov:
+        (base if set_repr_only(vals, ov) else others).add((t, c))
+  if not base or not others:
+    return x, y
+  accepted = set(base)
+  changed = True
+  while changed:
+    changed = False
+    for tc in list(others - accepted):
+      f = formula.get(tc, '')
+      if any(re.search(r'(?<![A-Za-z0-9_])%s(?![A-Za-z0-9_])' % re.escape(c2), f) for (_t2, c2) in accepted):
+        accepted.add(tc)
+        changed = True
+  if others - accepted:
+    return x, y
+  x2, y2 = copy.deepcopy(x), copy.deepcopy(y)
+  for (t, c) in accepted - base:
+    y2['tables'][t]['cols'][c] = x2['tables'][t]['cols'][c]
+  for key in ('stored', 'undo', 'calc'):
+    for a, b in zip(x2.get('reply', {}).get(key, []), y2.get('reply', {}).get(key, [])):
+      if a != b and a[0] == b[0] and a[0] in ('BulkUpdateRecord', 'UpdateRecord', 'BulkAddRecord', 'AddRecord') \
+         and a[1:3] == b[1:3] and isinstance(a[3], dict) and isinstance(b[3], dict):
+        for col in a[3]:
+          if (a[1], col) in accepted - base and col in b[3]:
+            b[3][col] = a[3][col]
+  return x2, y2
+
+
 def compare_full(hist, sa, sb):
   """Re-runs one history under two seeds with full output; (index, kind, what) of the first difference or None."""
   full = run_workers([hist], [sa, sb], mode='full')
   d = first_difference(full[sa][0], full[sb][0])
   if d is None:
     return None
-  i, x, y = d
+  i, x0, y0 = d
+  x, y = strip_downstream(x0, y0)
   kind = 'cross-process-mismatch'
   if set_repr_only(x, y):
     if set_nested_in_container_text(x, y):
@@ -352,7 +399,7 @@ def compare_full(hist, sa, sb):
     kind = 'set_to_choicelist_order'
   elif rename_table_order_only(x, y):
     kind = 'action-order:rename-summary-tables'
-  return i, kind, 'PYTHONHASHSEED=%s vs %s, bundle %d: %s' % (sa, sb, i, describe(x, y))
+  return i, kind, 'PYTHONHASHSEED=%s vs %s, bundle %d: %s' % (sa, sb, i, describe(x0, y0))
 
 
 def replay(ctx, w):
